@@ -274,7 +274,11 @@ func (fr *Frame) binop(op token.Token, x, y *Val, rt types.Type, pos token.Pos) 
 	}
 	mk := func(t Term) *Val {
 		v := fr.mkVal(t, rt)
-		v.T = vc.define("b", v.S, v.T)
+		if v.S == SInt {
+			v.T = vc.defineOpaque("b", v.S, v.T)
+		} else {
+			v.T = vc.define("b", v.S, v.T)
+		}
 		return v
 	}
 	switch op {
